@@ -25,6 +25,8 @@ P    == INSTANCE ErgoProps WITH Dev <- {}
 AsIs == INSTANCE ErgoCmds WITH Dev <- AsIsDev
 Ops  == INSTANCE ErgoOps WITH Dev <- {}
 Cn   == INSTANCE ErgoConc WITH Dev <- {}
+Tx   == INSTANCE ErgoText
+FS   == INSTANCE ErgoFS WITH Dev <- {}
 
 Raw == ndJsonDeserialize(ObsFile)
 
@@ -35,6 +37,8 @@ NormObs(r) == [r EXCEPT !.pre = NormView(@), !.post = NormView(@), !.reply = Nor
                         !.gone = ToSet(@),
                         !.procs = [k \in DOMAIN @ |-> [@[k] EXCEPT !.reply = NormReply(@)]],
                         !.after = [k \in DOMAIN @ |-> [@[k] EXCEPT !.view = NormView(@)]]]
+
+NormFS(f) == [f EXCEPT !.cfg = [@ EXCEPT !.stores = ToSet(@)]]
 
 VARIABLES i, bad
 vars == <<i, bad>>
@@ -107,7 +111,10 @@ ClauseNames ==
     "C10_serial",
     "C14_final",
     "C16_prune_truth",
+    "C04_stays",
     "C03_readable", "C03_only_own_missing", "C03_continues", "C04_all_or_nothing",
+    "C18_where", "C18_same_store", "C18_lands", "C18_reads_work", "C18_lock", "C18_init",
+    "C17_roundtrip", "C17_stays", "C17_accepted",
     "R_step", "R_reply", "R_time", "R_preview", "R_faillog" }
 
 Eval(n, o) ==
@@ -174,10 +181,20 @@ Eval(n, o) ==
     [] n = "C10_serial" -> Cn!C10_serial(o)
     [] n = "C14_final" -> Cn!C14_final(o)
     [] n = "C16_prune_truth" -> Cn!C16_prune_truth(o)
+    [] n = "C04_stays" -> Cn!C04_stays(o)
     [] n = "C03_readable" -> Cn!C03_readable(o)
     [] n = "C03_only_own_missing" -> Cn!C03_only_own_missing(o)
     [] n = "C03_continues" -> Cn!C03_continues(o)
     [] n = "C04_all_or_nothing" -> Cn!C04_all_or_nothing(o)
+    [] n = "C18_where" -> FS!C18_where(NormFS(o.fs))
+    [] n = "C18_same_store" -> FS!C18_same_store(NormFS(o.fs))
+    [] n = "C18_lands" -> FS!C18_lands(NormFS(o.fs))
+    [] n = "C18_reads_work" -> FS!C18_reads_work(NormFS(o.fs))
+    [] n = "C18_lock" -> FS!C18_lock(NormFS(o.fs))
+    [] n = "C18_init" -> FS!C18_init(NormFS(o.fs))
+    [] n = "C17_roundtrip" -> Tx!C17_roundtrip(o.text)
+    [] n = "C17_stays" -> Tx!C17_stays(o.text)
+    [] n = "C17_accepted" -> Tx!C17_accepted(o.text)
     [] n = "R_step" -> R_step(o)
     [] n = "R_reply" -> R_reply(o)
     [] n = "R_time" -> R_time(o)
@@ -192,8 +209,10 @@ ConcNames == {"C01_serial", "C01_no_double", "C01_outcomes", "C01_winner_holds",
               "C10_serial",
               "C14_final",
               "C16_prune_truth",
+              "C04_stays",
               "C03_readable", "C03_only_own_missing", "C03_continues", "C04_all_or_nothing"}
-Wanted(r) == IF "only" \in DOMAIN r THEN ToSet(r.only) \cap ClauseNames ELSE ClauseNames \ ConcNames
+TextNames == {"C17_roundtrip", "C17_stays", "C17_accepted", "C18_where", "C18_same_store", "C18_lands", "C18_reads_work", "C18_lock", "C18_init"}
+Wanted(r) == IF "only" \in DOMAIN r THEN ToSet(r.only) \cap ClauseNames ELSE ClauseNames \ (ConcNames \cup TextNames)
 
 Init == i = 0 /\ bad = {}
 Next == /\ i < Len(Raw)
